@@ -226,6 +226,15 @@ def rankOf (symbols : List SymbolRow) (cls : Str) : Nat :=
 /-- marker names (and `CustomGradient`) contain no `_`: `_generate_id` can be read back -/
 def markerNameOK (m : MarkerRow) : Bool := !m.name.contains '_'
 
+/-- a `STYLES` entry, for "every bare element draws": markers only on `Edge` entries and naming a factory; no marker
+under the `text_` prefix (in either spelling); the stroke of an `Edge` entry is a colour -/
+def entryPlainOK (markers : List MarkerRow) (e : StyleEntry) : Bool :=
+  e.props.all fun p =>
+    (if isMarkerKey p.1 then decide (e.oc.takeWhile (· ≠ '.') = edgeName) &&
+        (match p.2 with | .str m => hasMarker markers m | _ => false) else true) &&
+    !(textPfx.isPrefixOf p.1 && isMarkerKey (attrName (p.1.drop 5))) &&
+    (if p.1 = strokeKey ∧ e.oc.takeWhile (· ≠ '.') = edgeName then isColor p.2 else true)
+
 /-- ids defined more than once by the fragments of the symbol table -/
 def clashIds (symbols : List SymbolRow) : List Str :=
   let all := symbols.flatMap (·.ids)
